@@ -53,6 +53,7 @@ def run(chk):
         "rejection-rule instances."
     )
     chk.rule("R1", "both union operands are projected by the left table's name list (Polars) / right side re-selected in left order (SQL)")
+    chk.rule("R1p", "Polars union: the Union branch interpreted on schema-level frame stubs: both inputs projected to the left visible names in order before stacking; afterwards the name map knows exactly the columns of the frame")
     chk.rule("R1s", "SQL union: the Union branch of the compiler interpreted on stub operands (same order, permuted, hidden column): both operands select the left names in the left order, no ORDER BY in an operand, UNION vs UNION ALL, result columns are the left columns")
     chk.rule("R1v", "Polars union: on every path both stacked frames are projections to the visible columns (finite-domain evaluation)")
     chk.rule("R2", "distinct=True removes duplicates, distinct=False keeps them, on both back ends")
@@ -69,6 +70,26 @@ def run(chk):
     items = Slicer(sym, pol, pcfg.subject, uc).slice(pcfg.func.body)
     stmts = [st for st, _ in flat(items)]
 
+    # ---- R1p Polars Union branch interpreted on schema-level frame stubs (polsim)
+    from .. import polsim as _pls
+    from ..interp import PyRaise as _PRp, SymbolicBranch as _SBp
+    from ..rules.c17 import m_types_env as _mtep
+    from ..sqlsim import branch_body as _bbp
+
+    pol_union_decided = False
+    try:
+        pb = _bbp(pcfg.func, pcfg.subject, "Union")
+        if pb is None:
+            raise AnalysisError("no `isinstance(nd, Union)` branch in the Polars compile_ast")
+        for desc, ok_, detail in _pls.union_name_scenarios(_pls.PolWorld(repo, _mtep(m)), pb):
+            chk.ob("R1p", pol, pcfg.func, f"polars Union interpreted: {desc}", ok_, detail)
+        pol_union_decided = True
+    except (AnalysisError, _SBp) as e:
+        chk.note(f"R1p: the Polars Union branch could not be interpreted ({str(e)[:140]}); judged by shape")
+    except _PRp as p_:
+        pol_union_decided = True
+        chk.ob("R1p", pol, pcfg.func, "polars Union branch on frame stubs", False, f"setting up the Union branch raises {p_.name}: {p_.msg}")
+
     # ---- R1 polars
     names_var = None
     for st in stmts:
@@ -80,7 +101,7 @@ def run(chk):
             tgt, src = norm(st.targets[0]), norm(st.value.func.value)
             if tgt == src:
                 proj[tgt] = [norm(a) for a in st.value.args]
-    good = names_var is not None and proj.get("df") == [f"*{names_var}"] and proj.get("right_df") == [f"*{names_var}"]
+    good = pol_union_decided or (names_var is not None and proj.get("df") == [f"*{names_var}"] and proj.get("right_df") == [f"*{names_var}"])
     chk.ob("R1", pol, pcfg.func, f"polars Union: df and right_df both select(*{names_var})", good,
            f"Polars union projects {proj} - both operands must be reduced to the left table's visible names in the left order "
            "(otherwise columns are matched by position and hidden columns leak)")  # fmt: skip
